@@ -61,7 +61,8 @@ def main():
     na = []
     for pid, modname in sorted(PROP_MODULES.items()):
         path = os.path.join(HERE, modname.replace(".", "/") + ".py")
-        if not os.path.exists(path):
+        ready = set(open(os.path.join(HERE, "tools", "ready.txt")).read().split())
+        if not os.path.exists(path) or pid not in ready:
             na.append({"property_id": pid, "reason": "check not built yet in this round (planned; see DESIGN.md section 3)"})
             continue
         tech, note = T[pid]
